@@ -72,7 +72,7 @@ Lexer::~Lexer() {
 int Lexer::peekNextChar() {
   if (bufferPos == buffer.end())
     return -1;
-  return *bufferPos;
+  return (unsigned char)*bufferPos;
 }
 
 int Lexer::getNextChar() {
@@ -95,7 +95,7 @@ int Lexer::getNextChar() {
     ++columnNumber;
   }
 
-  return result;
+  return (unsigned char)result;
 }
 
 Token& Lexer::setTokenKind(Token& result, Token::Kind kind) const {
